@@ -207,6 +207,17 @@ def generate(rng, tier):
             w = rng.choice([1, 2, 3])
             xs = [tuple(rand_scalar(rng, nr, pool) for _ in range(w)) for _ in range(k)]
         yield dict(tag='sort' if pool is SCALARS else 'sort-numpy-pandas-spellings', lines=['(cmp sort %s)' % enc(xs)])
+    # sort AS THE CODE RUNS IT (round k2): the return statement reached (observed by spying on the `sorted` the module calls) and the
+    # result, against PygModel/SortCode.lean (`codeBranch`, `codeSort`; theorem `codeSort_eq_cmpSort`).  Pools that reach every branch:
+    # mixed kinds (TypeError fallback), one kind only (native), numpy numbers present (native on the as_primitive images), NaN / NaT
+    nums = [x for x in SCALARS + NP_SCALARS + BIG if isinstance(x, (int, float, np.number))]
+    code_pools = [('mixed', SCALARS), ('mixed-spellings', SCALARS + NP_SCALARS), ('numbers', nums), ('numbers', [x for x in SCALARS if isinstance(x, (int, float))]),
+                  ('big', BIG), ('dates', DATES), ('dates-nat', DATES_NAT), ('strings', ['a', 'b', 'ab', '', 'c', 'B'])]
+    for _ in range(300 if tier == 'quick' else 9000):
+        name, pool = rng.choice(code_pools)
+        k = rng.choice([0, 1, 1, 2, 3, 5, 8])
+        xs = [rand_scalar(rng, 0.08 if name in ('mixed', 'numbers') else 0.0, pool) for _ in range(k)]
+        yield dict(tag='sort-branch-' + name, lines=['(cmp sortcode %s)' % enc(xs)])
     # dictable.sort by 1..2 key columns
     n = 300 if tier == 'quick' else 8000
     for _ in range(n):
@@ -307,6 +318,24 @@ def run_line(state, sx):
         return 'ok I:%d' % (-1 if a < b else 1 if a > b else 0)
     if op == 'sort':
         return 'ok ' + enc(pyg_base.sort(dec(args[0])))
+    if op == 'sortcode':
+        # which `sorted(...)` calls does sort() make?  `sorted` is looked up in the module's globals before the builtins: a module
+        # attribute of that name observes the calls (no source edit) - [Cmp] / [as_primitive] / [None] / [.., Cmp] after a TypeError
+        from pyg_base import _sort
+        calls = []
+
+        def spy(values, key=None):
+            calls.append(key)
+            return sorted(values, key=key)
+        values = dec(args[0])
+        _sort.sorted = spy
+        try:
+            res = pyg_base.sort(values)
+        finally:
+            del _sort.sorted
+        names = ['Cmp' if k is _sort.Cmp else 'prim' if k is _sort.as_primitive else 'none' if k is None else repr(k) for k in calls]
+        branch = {('Cmp',): 'cmpkey', ('prim',): 'nativeprim', ('none',): 'native', ('prim', 'Cmp'): 'fallback', ('none', 'Cmp'): 'fallback'}.get(tuple(names), '/'.join(names))
+        return 'ok (T %s %s)' % (proto.enc(branch), enc(res))
     if op in ('sortidx', 'sortidxl'):
         keys = dec(args[0])
         w = len(keys[0]) if keys else 1
@@ -369,6 +398,14 @@ def compare(case, i, line, ir, mr):
         if rev.startswith('ok I:') and int(rev[5:]) != -int(ir[5:]):
             return 'cmp(x,y)=%s but cmp(y,x)=%s (model: %s)' % (ir[5:], rev[5:], mr)
         return ('divergence', 'cmp returned %s, model %s' % (ir, mr))
+    if line.startswith('(cmp sortcode '):
+        if not ir.startswith('ok '):
+            return 'sort raised: %s (branch model: %s)' % (ir, mr)
+        sx, out = proto.parse(line), proto.parse(ir[3:])
+        bad = statement_fails('(cmp sort %s)' % proto.render(sx[2]), 'ok ' + proto.render(out[2]))
+        if bad:
+            return '%s; implementation %s, branch model %s' % (bad, ir, mr)
+        return ('divergence', 'sort reaches / returns %s, the branch model (SortCode.codeBranch / codeSort) %s - the result is a cmp-ordered permutation all the same' % (ir, mr))
     if line.startswith('(cmp native '):
         return ('divergence', "python's native comparison gives %s, the reference model Cell.native / nativeArr %s (an assumption about CPython, not a clause of the property)" % (ir, mr))
     # sort / dictable.sort: the model's answer is the unique stable sort under the MODEL's cmp.  Decide the statement with the
